@@ -42,6 +42,7 @@ func (om *options) try(args []string, c *ParseContext) (bool, []string) {
 	if len(args) == 0 || c.RejectOptions {
 		return false, args
 	}
+	var fromEnv *container.Container
 	for _, o := range om.options {
 		if _, exclude := c.ExcludedOpts[o]; exclude {
 			continue
@@ -49,11 +50,20 @@ func (om *options) try(args []string, c *ParseContext) (bool, []string) {
 		seen := len(c.Opts[o])
 		if ok, nargs := (&opt{theOne: o, index: om.index}).Match(args, c); ok {
 			if o.ValueSetFromEnv && len(c.Opts[o]) == seen {
-				// matched thanks to its env value without consuming anything: don't try it again
-				c.ExcludedOpts[o] = struct{}{}
+				// matched thanks to its env value without consuming anything: only counts
+				// when no option of the group finds an occurrence of itself
+				if fromEnv == nil {
+					fromEnv = o
+				}
+				continue
 			}
 			return true, nargs
 		}
+	}
+	if fromEnv != nil {
+		// don't try it again
+		c.ExcludedOpts[fromEnv] = struct{}{}
+		return true, args
 	}
 	return false, args
 }
